@@ -36,6 +36,18 @@ fn main() {
             let Some(prop) = args.get(1).and_then(|id| props::lookup(id)) else { usage() };
             driver::eval_main(prop, &args[2..]);
         }
+        "crosscheck" => {
+            let Some(prop) = args.get(1).and_then(|id| props::lookup(id)) else { usage() };
+            let tier = Tier::parse(args.get(2).map(|s| s.as_str()).unwrap_or("quick"));
+            let seed: u64 = args.get(3).and_then(|s| s.parse().ok()).unwrap_or(1);
+            let run: u64 = args.get(4).and_then(|s| s.parse().ok()).unwrap_or(0);
+            let (c, why) = driver::crosscheck_explained(prop, tier, seed, run);
+            println!("(simd, forward) {:?}\n(simd, reverse) {:?}\n(scalar, forward) {:?}", c[0], c[1], c[2]);
+            for l in why {
+                println!("{l}");
+            }
+            std::process::exit(if c[0] == c[1] && c[0] == c[2] { 0 } else { 1 });
+        }
         "replay" => {
             let Some(file) = args.get(1) else { usage() };
             std::process::exit(driver::replay_main(props::lookup, file));
